@@ -131,6 +131,19 @@ class C07(CheckBase):
                         yield with_cause(base, cause, {"turn": n}, phase, rng)
         else:
             scn = gen_session(rng)
+            if idx % 24 == 17:
+                # while the session is live another part of the application calls connect()/start_connection() with ITS stop
+                # callback (or none) and is refused; whatever ends the session later, the callback given when the session was
+                # set up is the one that runs
+                scn["actors"] = [{"id": "a0", "at": {"t": 0.0}, "steps": [{"do": "connect", "login": rng.random() < 0.5, "stop_tag": "session-owner"}, {"do": "sleep", "d": 30.0}]},
+                                 {"id": "other", "at": {"on": "state", "match": {"new": "CONNECTED"}, "delay": pick(rng, [0.0, 0.1, 1.0])}, "steps": [{"do": pick(rng, ["connect", "start"]), "login": False, "stop_tag": "refused-caller", **({"no_on_stop": True} if rng.random() < 0.4 else {})}]}]
+                scn["events"] = []
+                scn["device"].pop("reply_delay", None)
+                scn["net"]["connect"] = {a: [{"outcome": "ok", "latency": 0.001}] for a in scn["client"]["addresses"]}
+                scn["expect_stop_tag"] = "session-owner"
+                scn = with_cause(scn, pick(rng, ["fin", "rst", "garbage", "dev_disconnect", "force_disconnect", "disconnect"]), {"on": "state", "match": {"new": "CONNECTED"}, "delay": pick(rng, [2.0, 3.0])}, "pre", rng)
+                yield scn
+                return
             if idx % 12 == 11:
                 # disconnect() is called while the hello is outstanding; the device answers the hello and drops the connection
                 # right behind it: the session is established and lost again before the waiting disconnect() gets to send
@@ -218,7 +231,14 @@ class C07(CheckBase):
             yield scn
 
     def oracle(self, run: Any, scn: dict) -> list[Violation]:
-        return on_stop_oracle(Index(run.history))
+        ix = Index(run.history)
+        out = on_stop_oracle(ix)
+        want = scn.get("expect_stop_tag")
+        if want is not None:
+            tags = [tag for _sq, tag, _e in sorted(ix.user_on_stop)]
+            if any(c in ix.connected_seq and c in ix.closed_seq for c in ix.conns) and tags != [want]:
+                out.append(Violation("stop-callback-identity", str(tags), f"the session was set up with the stop callback of {want!r}; callbacks invoked when it ended: {tags}"))
+        return out
 
 
 CHECK = C07()
